@@ -11,5 +11,7 @@ func init() {
 		// repairs is pinned so that touching it triggers the failing-input search
 		o.pins("cue", "Value.Int64")
 		o.pins("cmd/cue/cmd", "buildPlan.placeOrphans")
+		// how output files are opened (refuse / replace an existing file): exercised by c12_overwrite.go
+		o.pins("internal/encoding", "writer")
 	}
 }
